@@ -2,7 +2,11 @@
 
 package spine
 
-import "sync/atomic"
+import (
+	"sync/atomic"
+
+	"github.com/enbility/spine-go/api"
+)
 
 // VerifYield is only present with the build tag "verif". A verification harness
 // can install a function here to take control of the calling goroutine at the
@@ -13,4 +17,15 @@ func verifYield(point string) {
 	if f := VerifYield.Load(); f != nil {
 		(*f)(point)
 	}
+}
+
+// VerifSubscribe and VerifUnsubscribe are only present with the build tag "verif". The event bus has
+// two levels of handlers and the public API reaches the application level only; a verification
+// harness uses these to put handlers of its own on the core level as well.
+func VerifSubscribe(level api.EventHandlerLevel, handler api.EventHandlerInterface) error {
+	return Events.subscribe(level, handler)
+}
+
+func VerifUnsubscribe(level api.EventHandlerLevel, handler api.EventHandlerInterface) error {
+	return Events.unsubscribe(level, handler)
 }
